@@ -132,7 +132,7 @@ TNext == TLaunch \/ TCtrlZ \/ TCtrlC \/ TExt \/ TEnter \/ TJobs \/ TBuiltin
          \/ SFgStep \/ SEchild \/ SResume \/ SPoll \/ Observe
 TSpec == TInit /\ [][TNext]_tvars
 
-Track == IF l > TLCGet(1) THEN TLCSet(1, l) ELSE TRUE
+Track == IF l > TLCGet(1) THEN TLCSet(1, l) /\ PrintT(<<"L", l>>) ELSE TRUE
 Accepted == \/ TLCGet(1) = Len(Rec) + 1
             \/ PrintT(<<"REJECT", TLCGet(1)>>) /\ FALSE
 =============================================================================
